@@ -1,4 +1,4 @@
-SPECIFICATION Spec
+SPECIFICATION GenSpec
 CONSTANTS
   Sessions = {"M1", "M2"}
   Legacy = {}
@@ -10,23 +10,27 @@ CONSTANTS
   Want <- WantAll
   CapOff = {}
   TTLPos = FALSE
-  D = 0
-  MaxTime = 0
+  D = 2
+  MaxTime = 2
   MaxChanges = 0
   MaxUpdates = 1
   MaxCalls = 0
   NPages = 1
   ListenOwns = TRUE
-  ResubRace = FALSE
+  ResubRace = TRUE
   GenCheck = TRUE
   ModernUnsub = TRUE
   ForeignUnsub = FALSE
   Listeners = {"M1"}
   MaxListens = 2
   FailUndo = TRUE
-  Stepwise = FALSE
-  Gates = TRUE
-  GateNames = {"unsub"}
-  ClientFirst = TRUE
-INVARIANTS TypeOK UpdatedExactlySubscribers SubsOnlyCurrent ForgottenOnClose MapsOnlySessions
+  Stepwise = TRUE
+  Gates = FALSE
+  GateNames = {}
+  ClientFirst = FALSE
+  MinSteps = 1
+  MaxSteps = 4
+  Bias = FALSE
+  GenOps = {"listen", "unlisten", "subscribe", "unsubscribe", "updated", "close"}
+INVARIANTS Export UpdatedExactlySubscribers SubsOnlyCurrent ForgottenOnClose
 CHECK_DEADLOCK FALSE
